@@ -1013,6 +1013,20 @@ func c18SeqPrefixCase(r *Rand, z c18Zone) string {
 		offs = append(offs, strconv.Itoa(o))
 		abbrs = append(abbrs, a)
 	}
+	if op == "seqpar" { // order independence needs ONE detected layout (RFC3339 prints `Z` for offset 0 and `+01:00` otherwise: two layouts)
+		first := ""
+		for i, s := range strs {
+			if s == "" {
+				continue
+			}
+			if first == "" {
+				first = det[i]
+			}
+			if det[i] != first || det[i] == "" {
+				op = "seqe"
+			}
+		}
+	}
 	return fmt.Sprintf("%s %s %s %s %s %s %s %s %s %s %s . . %s", op, HexS(prefix), kind, HexS(f), HexS(z.arg), c18Ok(z), HexListS(strs), HexListS(det), dok.String(),
 		strings.Join(offs, ","), HexListS(abbrs), HexS(bucket))
 }
